@@ -498,6 +498,7 @@ func main() {
 	files = append(files, genScanProgs(byDir)...)
 	files = append(files, genFilterPure(byDir)...)
 	files = append(files, genColorShape(byDir)...)
+	files = append(files, genSkipShape(byDir)...)
 	files = append(files, genUtilShape(byDir)...)
 	files = append(files, genVmShape(repo, byDir)...)
 	changed := []string{}
